@@ -498,7 +498,7 @@ def run_entry(vu, work, entry, tier, cover=False):
     if not cover and not vu.get("no_trace"):
         cmd += ["--trace"]
     cmd += ["--json-ui"]
-    to = int(os.environ.get("VERIF_TIMEOUT", entry.get("timeout", {"quick": 600, "thorough": 1800}[tier])))
+    to = int(os.environ.get("VERIF_TIMEOUT", entry.get("timeout", {"quick": 1500, "thorough": 3600}[tier])))
     rc, so, se, dt = run(cmd, cwd=work, timeout=to)
     res = {"entry": name, "cmd": " ".join(cmd), "seconds": round(dt + t_inst, 2), "backend": backend,
            "unwind_is_termination": bool(entry.get("unwind_is_termination")),
